@@ -72,6 +72,10 @@ class Report:
             self.samples.append(ob)
 
     def fail(self, rule: str, construct: str, loc: str, message: str, detail: Optional[dict] = None):
+        for old in self.findings:
+            if old.rule == rule and old.construct == construct:
+                self.count(f"repeated:{rule}")
+                return old
         f = Finding(rule, construct, loc, message, detail)
         self.findings.append(f)
         self.obligations.append({"rule": rule, "construct": construct, "loc": loc, "status": "violated", "note": message})
